@@ -131,6 +131,25 @@ def job_batch(ctx, k):
             ctx.seen((lab, mn, 'batch'))
 
 
+def job_options(ctx, k):
+    """Dispatchers pass the options on: an invalid version / method must be refused through every route."""
+    from ahrs import Quaternion, QuaternionArray, DCM
+    R = rq.R(A.MENU[k])
+    routes = {'DCM.to_quaternion': lambda m, kw: DCM(R.copy()).to_quaternion(method=m, **kw),
+              'DCM.to_q': lambda m, kw: DCM(R.copy()).to_q(method=m, **kw),
+              'Quaternion(dcm=)': lambda m, kw: Quaternion(dcm=R.copy(), method=m, **kw),
+              'QuaternionArray(DCM=[R])': lambda m, kw: QuaternionArray(DCM=R.copy()[None], method=m, **kw)}
+    for rn, fn in routes.items():
+        for m, kw in (('itzhack', {'version': 4}), ('itzhack', {'version': 0}), ('no-such-method', {})):
+            try:
+                fn(m, kw)
+                ok = False
+            except Exception:
+                ok = True           # any refusal shows that the option reached the converter
+            ctx.expect(ok, f'{rn}: invalid option reaches the converter and is refused', f'method={mname(m, kw)}', 'accepted', 'ValueError')
+            ctx.seen(('opt', rn, m, str(kw)))
+
+
 def run(ctx):
     ks = list(range(8)) if ctx.thorough else [A.seed_k(ctx.seed)]
     jobs = []
@@ -138,5 +157,6 @@ def run(ctx):
         n = len(matrices(k))
         jobs += [('job_grid', (k, lo, hi)) for lo, hi in core.chunks(n, 15)]
         jobs.append(('job_batch', (k,)))
+        jobs.append(('job_options', (k,)))
     core.run_jobs(ctx, __name__, jobs)
     ctx.notes['matrices_per_menu_entry'] = len(matrices(ks[0]))
